@@ -791,3 +791,39 @@ mutant("c19-duration-range", "C19", "R19.g", GEN,
 refactor("c19-r-inline-cap", "C19", GEN,
          "            num_machines = self.rng.randint(min_num_machines, max_num_machines)",
          "            num_machines = self.rng.randint(min_num_machines, max_num_machines)\n            assert num_machines >= 0")
+
+# ------------------------------------------------------------------ C14
+ORT = "job_shop_lib/constraint_programming/_ortools_solver.py"
+GRAPH = "job_shop_lib/graphs/_job_shop_graph.py"
+mutant("c14-features-view", "C14", "R14.a", DUR,
+       "        operation_durations = np.array(duration_matrix).reshape(-1, 1)", "        operation_durations = duration_matrix.reshape(-1, 1)",
+       "feature table becomes a view of the cached float matrix")
+mutant("c14-sort-machines", "C14", "R14.a", DISP,
+       "        machine_earliest_start_time = min(", "        operation.machines.sort()\n        machine_earliest_start_time = min(",
+       "a query normalises the operation's machine list in place")
+mutant("c14-pop-jobs", "C14", "R14.a", RSOL,
+       "        selected_operation = self.dispatching_rule(dispatcher)", "        dispatcher.instance.jobs[0].reverse()\n        selected_operation = self.dispatching_rule(dispatcher)")
+mutant("c14-loads-inplace", "C14", "R14.a", DUR,
+       "        machine_durations = self.dispatcher.instance.machine_loads\n",
+       "        machine_durations = self.dispatcher.instance.machine_loads\n        machine_durations.append(0)\n")
+mutant("c14-set-duration", "C14", "R14.a", ORT,
+       "                self._operations_start[operation] = (start_var, end_var)", "                operation.duration = int(operation.duration)\n                self._operations_start[operation] = (start_var, end_var)")
+mutant("c14-alias-then-write", "C14", "R14.a", GRAPH,
+       "            for machine_id in operation.machines:\n                self._nodes_by_machine[machine_id].append(node_for_adding)",
+       "            machines = operation.machines\n            machines.sort()\n            for machine_id in machines:\n                self._nodes_by_machine[machine_id].append(node_for_adding)")
+mutant("c14-pad-rows-inplace", "C14", "R14.a", INST,
+       "        for i, row in enumerate(matrix):\n            squared_matrix[i, : len(row)] = row\n        return squared_matrix\n\n    @staticmethod\n    def _fill_matrix_with_nans_3d",
+       "        for i, row in enumerate(matrix):\n            row += [0] * (max_length - len(row))\n            squared_matrix[i, : len(row)] = row\n        return squared_matrix\n\n    @staticmethod\n    def _fill_matrix_with_nans_3d",
+       "seeded C14-s3 shape: cached list rows padded in place")
+mutant("c14-todict-key", "C14", "R14.b", INST,
+       "            \"duration_matrix\": self.durations_matrix,\n            \"machines_matrix\": self.machines_matrix,\n            \"metadata\": self.metadata,\n        }\n\n    @classmethod",
+       "            \"durations_matrix\": self.durations_matrix,\n            \"machines_matrix\": self.machines_matrix,\n            \"metadata\": self.metadata,\n        }\n\n    @classmethod")
+mutant("c14-no-progress-check", "C14", "R14.c", SCH,
+       "            if not at_least_one_operation_scheduled:\n                raise ValidationError(\n                    \"Invalid job sequences. No valid operation to schedule.\"\n                )\n", "")
+mutant("c14-flag-always", "C14", "R14.c", SCH,
+       "            at_least_one_operation_scheduled = False\n", "            at_least_one_operation_scheduled = True\n")
+mutant("c14-id-first-inc", "C14", "R14.d", INST,
+       "                operation.operation_id = operation_id\n                operation_id += 1", "                operation_id += 1\n                operation.operation_id = operation_id")
+refactor("c14-r-copy-loads", "C14", DUR,
+         "        machine_durations = self.dispatcher.instance.machine_loads\n",
+         "        machine_durations = list(self.dispatcher.instance.machine_loads)\n        machine_durations.append(0)\n        machine_durations.pop()\n")
